@@ -307,6 +307,82 @@ func runC17(p *core.Prog, r *core.Report, tier string) {
 	c17FanOut(p, r, la)
 	c12Pairing(p, r, la)
 	c17Globals(p, r, la)
+	// an object handed to a job (captured by the job function given to the scheduler) is finished: the function that
+	// schedules the job does not, after the ScheduleJob call, pass the object to anything that writes it (the job can
+	// start at once — a duty of the current slot, an early run — and would read the object while it is being written)
+	nHand := 0
+	for _, fn := range p.FuncsIn("services/controller/standard") {
+		for _, ci := range core.Calls(fn, func(c *ssa.CallCommon) bool {
+			return c.IsInvoke() && (c.Method.Name() == "ScheduleJob" || c.Method.Name() == "SchedulePeriodicJob")
+		}) {
+			args := ci.Common().Args
+			var captured []ssa.Value
+			for _, a := range args {
+				for {
+					if ct, ok := a.(*ssa.ChangeType); ok {
+						a = ct.X
+						continue
+					}
+					break
+				}
+				if mc, ok := a.(*ssa.MakeClosure); ok {
+					for _, b := range mc.Bindings {
+						v := b
+						// a captured variable: the value stored in its cell
+						if al, ok := b.(*ssa.Alloc); ok && al.Referrers() != nil {
+							for _, ref := range *al.Referrers() {
+								if st, ok := ref.(*ssa.Store); ok && st.Addr == ssa.Value(al) {
+									v = st.Val
+								}
+							}
+						}
+						if _, isPtr := v.Type().Underlying().(*types.Pointer); isPtr && strings.HasSuffix(typeName(v.Type()), ".Duty") {
+							captured = append(captured, v)
+						}
+					}
+				}
+			}
+			for _, obj := range captured {
+				nHand++
+				var writer ssa.Instruction
+				w := core.PathQuery{Fn: fn, From: ci.(ssa.Instruction), Target: func(x ssa.Instruction) bool {
+					c, ok := x.(*ssa.Call)
+					if !ok {
+						return false
+					}
+					for i, a := range c.Call.Args {
+						if a != obj && !sameExpr(a, obj, 0) && singleStoreOf(a) != obj {
+							continue
+						}
+						var callees []*ssa.Function
+						if g := c.Call.StaticCallee(); g != nil {
+							callees = []*ssa.Function{g}
+						} else {
+							callees = p.CalleesAt(fn, c)
+						}
+						for _, g := range callees {
+							k := i
+							if c.Call.IsInvoke() {
+								k = i + 1 // receiver first in the callee's parameters
+							}
+							if k < len(g.Params) && len(writesThrough(p, g, g.Params[k], 3, map[*ssa.Function]bool{})) > 0 {
+								writer = x
+								return true
+							}
+						}
+					}
+					return false
+				}}.Find()
+				where := ""
+				if writer != nil {
+					where = core.CalleeName(writer.(*ssa.Call).Common())
+				}
+				r.Check(w == nil, "C17.i", fmt.Sprintf("%s|handed-to-job-then-written#%d", core.FnKey(fn), nHand), p.Pos(ci.Pos()), "the duty captured by the job is not written by this function after the job was scheduled",
+					"after scheduling a job that captures this duty the function passes the duty to "+where+", which writes it: the job (which may start immediately) reads the duty's fields while they are being written — there is no lock on the duty", p.WitnessText(w)...)
+			}
+		}
+	}
+	r.Floor("C17.i duties handed to scheduled jobs", nHand, 4)
 	// collections handed out by a duty's getters belong to the duty, which is shared between the jobs of several
 	// slots and the records published for verification: consumers read them, never change them
 	nGet, nMut := 0, 0
@@ -1193,4 +1269,28 @@ func isCollection(t types.Type) bool {
 		return true
 	}
 	return false
+}
+
+// singleStoreOf: v is a load of a local cell that is stored to exactly once; returns the stored value.
+func singleStoreOf(v ssa.Value) ssa.Value {
+	u, ok := v.(*ssa.UnOp)
+	if !ok || u.Op != token.MUL {
+		return nil
+	}
+	a, ok := u.X.(*ssa.Alloc)
+	if !ok || a.Referrers() == nil {
+		return nil
+	}
+	var stored ssa.Value
+	n := 0
+	for _, ref := range *a.Referrers() {
+		if st, ok := ref.(*ssa.Store); ok && st.Addr == ssa.Value(a) {
+			stored = st.Val
+			n++
+		}
+	}
+	if n != 1 {
+		return nil
+	}
+	return stored
 }
